@@ -60,16 +60,16 @@ func runC14(cx *Ctx, r *Report) {
 				// update restriction
 				if f, ok := hasFact(facts, false, ".UpdateRestricted"); ok && strings.Contains(f.Text, class) {
 					r.ok("update-restriction", key, pos, "UpdateRestricted of class "+class+" is false on this path ("+f.String()+")")
-				} else if why, ok := w.failGuard(ev.Fr, ev.Site, true, ".UpdateRestricted", class); ok {
-					r.ok("update-restriction", key, pos, "conjunctive guard: "+why)
+				} else if why, ok := w.pathGuard(ev.Fr, ev.Site, false, ".UpdateRestricted", class); ok {
+					r.ok("update-restriction", key, pos, "path-sensitive guard: "+why)
 				} else {
 					r.violate("update-restriction", key, pos, "metadata update reachable without a test of the class's UpdateRestricted flag on chain "+ev.Fr.String())
 				}
 			}
 		case "nft.Mint":
 			// FailGuard(MintRestricted true) with the creator comparison on the way to the failure exit
-			why, ok := w.failGuardX(ev.Fr, ev.Site, true, []string{".MintRestricted"}, [][]string{{".Creator", signers[0]}})
-			r.check(ok, "mint-restriction", key, pos, "conjunctive guard: "+why,
+			why, ok := w.pathGuardAny(ev.Fr, ev.Site, guardAlt{false, []string{".MintRestricted"}}, guardAlt{false, []string{".Creator", "!=", signers[0]}}, guardAlt{true, []string{".Creator", "==", signers[0]}})
+			r.check(ok, "mint-restriction", key, pos, "path-sensitive guard: "+why,
 				"Mint reachable without the MintRestricted ∧ creator≠signer rejection on chain "+ev.Fr.String())
 			// the class of the restriction test is the minted class
 			tok := ev.Args[len(ev.Args)-2]
